@@ -173,6 +173,23 @@ func All() []Op {
 			}
 			return r
 		}},
+		// a request whose second device exists in state B only (and whose first is defined by another
+		// file there): state A refuses it, state B resolves both - a1 from A's file next to b1 is neither
+		{"InjectDevices(a1,b1)", true, func(w *World, c *cdi.Cache) Result {
+			o := &oci.Spec{}
+			unres, err := c.InjectDevices(o, q("a1"), q("b1"))
+			env := []string{}
+			if o.Process != nil {
+				env = o.Process.Env
+			}
+			r := Result{Op: "InjectDevices(a1,b1)", Obs: fmt.Sprint(unres, err != nil, env)}
+			okA := err != nil && eq(unres, []string{q("b1")}) && len(env) == 0
+			okB := err == nil && len(unres) == 0 && eq(env, []string{"SPEC_keep0=1", "SRC_a1=keep0", "SPEC_B=1", "SRC_b1=B"})
+			if !okA && !okB {
+				r.Bad = fmt.Sprintf("InjectDevices(a1,b1): unresolved %v, err %v, env %v - a mixture of the two states", unres, err, env)
+			}
+			return r
+		}},
 		{"Refresh", false, func(w *World, c *cdi.Cache) Result {
 			_ = c.Refresh()
 			return Result{Op: "Refresh"}
